@@ -504,6 +504,7 @@ func (p *Program) routeHandlerObligations(d *Directive) (items []specialItem, re
 		}
 		// walk the receiver chain for .Path("<lit>")
 		path := ""
+		methods := ""
 		cur := sel.X
 		for cur != nil {
 			c, ok := unparen(cur).(*ast.CallExpr)
@@ -519,10 +520,18 @@ func (p *Program) routeHandlerObligations(d *Directive) (items []specialItem, re
 					path = strings.Trim(bl.Value, "\"`")
 				}
 			}
+			if cs.Sel.Name == "Methods" {
+				// a per-route method restriction is part of what the route matches: it belongs to the key
+				var ms []string
+				for _, a := range c.Args {
+					ms = append(ms, squash(p.text(a)))
+				}
+				methods = strings.Join(ms, ",") + ":"
+			}
 			cur = cs.X
 		}
 		if path != "" {
-			found[path] = append(found[path], squash(p.text(call.Args[0])))
+			found[methods+path] = append(found[methods+path], squash(p.text(call.Args[0])))
 		}
 		return true
 	})
